@@ -67,6 +67,9 @@ fn policy_of(_plan: &str, space: &str) -> &'static str {
     }
 }
 
+/// Size classes of the native mark-sweep space that C09's programs allocate from (see `recipe`).
+const MS_CLASSES_USED: usize = 4;
+
 struct Floors {
     bump_block_pages: usize,
     immix_block_pages: usize,
@@ -88,15 +91,17 @@ impl Floors {
     /// * ImmixSpace: every block without a marked line is released by the sweep; allocators are
     ///   reset at every collection.  Allowed: per mutator two blocks (bump + overflow cursor), per
     ///   worker copy and defrag allocators with two blocks each.
-    /// * native MarkSweepSpace: every unmarked block is released at the collection; allowed is the
-    ///   free-list allocator's worst case of one block per size class per mutator.
+    /// * native MarkSweepSpace: every unmarked block is released at the collection (eagerly, or
+    ///   by `sweep_later` with lazy sweeping); allowed is one block per mutator for every size
+    ///   class the programs allocate from (`MS_CLASSES_USED`: 40 B, 264 B, 2 KiB, 60 000 B), a
+    ///   margin for blocks a thread-local free-list allocator might keep.
     /// * LargeObjectSpace: every dead object's pages are released by the sweep: nothing.
     /// * immortal-like spaces: C09's programs allocate nothing there: nothing.
     fn floor(&self, policy: &str) -> usize {
         match policy {
             "bump" => (MAX_MUTATORS + WORKERS) * self.bump_block_pages,
             "immix" => (MAX_MUTATORS * 2 + WORKERS * 4) * self.immix_block_pages,
-            "marksweep" => self.ms_bins * MAX_MUTATORS * self.ms_block_pages,
+            "marksweep" => MS_CLASSES_USED.min(self.ms_bins) * MAX_MUTATORS * self.ms_block_pages,
             _ => 0,
         }
     }
@@ -401,10 +406,14 @@ fn segments() -> Vec<String> {
     v
 }
 
-const RULE: &str = "per collecting plan (own processes, 1 GC worker): cycles = allocate objects of the kind's size mix (small: 40 B; span: 264 B / 2 KiB alternating; los: 80 KiB; mixed: 40/264/2048 B and 80 KiB; twomut: two mutators alternating 40/264/2048 B) until 60 % of the heap has been requested, keeping every k-th on a rooted list, then drop every reference and force an exhaustive GC (twomut: once with both mutators still bound, once after destroying the second; ConcurrentImmix: one more forced GC, because the first may be the FinalMark pause of a concurrent cycle). Histories: segment win = a de Bruijn sequence of order n over the 5 kinds run back to back on a 16 MiB heap (every sequence of <= n kinds occurs as consecutive cycles; n = 3 quick / 5 thorough); segments rep:K = each kind repeated R times in a fresh process (R = 130 quick on a 4 MiB heap / 300 thorough on 16 MiB, crossing the 127-epoch Immix line-mark wrap); PageProtect: n = 2 / 3, R = 20 / 60, quick heap 4 MiB. Oracle after every cycle: no out_of_memory upcall, no null allocation; every space's page-resource reserved and committed pages <= floor(policy) (bump spaces: (2 mutators + 1 worker) x 8-page bump block; Immix: (2x2 + 1x4) x 8-page block; native mark-sweep: 49 size classes x 2 mutators x 16-page block; LOS and immortal spaces: 0; Compressor committed: + whole backing regions) and used_bytes <= sum of floors + their side-metadata estimate; address span of allocation results per space <= 8 x heap. states = distinct kind-sequences of length <= n covered as consecutive cycles + repetition prefixes; transitions = allocations + collections; evaluations = cycles; distinct_nontrivial = cycles in which the requested volume reached 60 % of the heap and the closing collection returned pages (reserved pages before the drop > after)";
+const RULE: &str = "per collecting plan (own processes, 1 GC worker): cycles = allocate objects of the kind's size mix (small: 40 B; span: 264 B / 2 KiB alternating; los: 80 KiB; mixed: 40/264/2048 B, 60 000 B (largest non-LOS size class) and 80 KiB; twomut: two mutators alternating 40/264/2048 B) until 60 % of the heap has been requested, keeping every k-th on a rooted list, then drop every reference and force an exhaustive GC (twomut: once with both mutators still bound, once after destroying the second; ConcurrentImmix: one more forced GC, because the first may be the FinalMark pause of a concurrent cycle). Histories: segment win = a de Bruijn sequence of order n over the 5 kinds run back to back on a 16 MiB heap (every sequence of <= n kinds occurs as consecutive cycles; n = 3 quick / 5 thorough); segments rep:K = each kind repeated R times in a fresh process (R = 130 quick on a 4 MiB heap / 300 thorough on 16 MiB, crossing the 127-epoch Immix line-mark wrap); PageProtect: n = 2 / 3, R = 20 / 60, quick heap 4 MiB. Oracle after every cycle: no out_of_memory upcall, no null allocation; every space's page-resource reserved and committed pages <= floor(policy) (bump spaces: (2 mutators + 1 worker) x 8-page bump block; Immix: (2x2 + 1x4) x 8-page block; native mark-sweep: the 4 size classes the programs use x 2 mutators x 16-page block; LOS and immortal spaces: 0; Compressor committed: + whole backing regions) and used_bytes <= sum of floors + their side-metadata estimate; address span of allocation results per space <= 8 x heap. states = distinct kind-sequences of length <= n covered as consecutive cycles + repetition prefixes; transitions = allocations + collections; evaluations = cycles; distinct_nontrivial = cycles in which the requested volume reached 60 % of the heap and the closing collection returned pages (reserved pages before the drop > after)";
 
 pub fn run(run: &mut Run) {
-    let plans: Vec<&str> = COLLECTING_PLANS.to_vec();
+    let mut plans: Vec<&str> = COLLECTING_PLANS.to_vec();
+    if cfg!(feature = "fs_s4") {
+        // configuration s4a (lazy sweeping) only changes the native mark-sweep space
+        plans.retain(|p| *p == "MarkSweep");
+    }
     let mut jobs: Vec<(String, String)> = vec![];
     for s in segments() {
         for p in &plans {
@@ -419,7 +428,7 @@ pub fn run(run: &mut Run) {
     run.set("max_depth", window_order("", run.tier) as u64);
     run.set("repetitions", repetitions("", run.tier) as u64);
     run.set("features", json!(crate::shadowvm::feature_set()));
-    run.assume("one GC worker, at most two mutators (played by one thread); heap fixed at 16 MiB (quick repetition runs and PageProtect quick: 4 MiB); object sizes 40 B, 264 B, 2 KiB, 80 KiB");
+    run.assume("one GC worker, at most two mutators (played by one thread); heap fixed at 16 MiB (quick repetition runs and PageProtect quick: 4 MiB); object sizes 40 B, 264 B, 2 KiB, 60 000 B, 80 KiB");
     run.assume("'any number of cycles' is covered by 130 / 300 repetitions per kind and a cycle-independent floor, not by induction");
     run.assume("the floor is a per-policy constant derived from block sizes and allocator counts read from the code; Default and Los semantics only (nothing is allocated in immortal / non-moving spaces)");
 }
